@@ -70,7 +70,7 @@ def kit_files():
         d = os.path.join(VERIF, "kit", pk)
         if os.path.isdir(d):
             for fn in sorted(os.listdir(d)):
-                if fn.endswith(".go"):
+                if fn.endswith(".go") or fn.endswith(".s"):
                     out.append((pk, os.path.join(d, fn)))
     return out
 
@@ -144,6 +144,10 @@ def build(frag, solo=False, quiet=False):
     # 3. kit packages as virtual packages
     for pk, p in kfiles:
         overlay[os.path.join(REPO, "internal", "verif", pk, os.path.basename(p))] = p
+        if p.endswith(".s"):
+            # the assembler chdir()s into the package directory, so it has to exist: an EMPTY
+            # directory (invisible to git, no file is ever written into /repo)
+            os.makedirs(os.path.join(REPO, "internal", "verif", pk), exist_ok=True)
     # 4. shim builds: rewritten sources
     if mode in ("shim", "shimrace"):
         dirs = [pkg] + list(frag.get("extra_pkgs", []))
